@@ -4,10 +4,30 @@ sys.path.insert(0, os.path.dirname(os.path.abspath(__file__)))
 from build import *
 
 
+_PLANNERS = {}   # planner objects are shared by all cases of a process with the same settings (object reuse)
+
+
 def one(case, pl):
     from msdm.algorithms.valueiteration import ValueIteration
     from msdm.algorithms.policyiteration import PolicyIteration
     mdp = build_mdp(case["mdp"], explicit_lists=case.get("explicit_lists", False))
+    order = case.get("action_order", "sorted")
+    if order != "sorted":
+        # actions(s) presented in an order different from the sorted action list
+        import random as _r
+        base_actions = mdp._actions
+        perm_rng = _r.Random(case.get("action_order_seed", 0))
+        cache = {}
+        def permuted(s):
+            if s not in cache:
+                a = list(base_actions(s))
+                if order == "desc":
+                    a = a[::-1]
+                else:
+                    perm_rng.shuffle(a)
+                cache[s] = tuple(a)
+            return cache[s]
+        mdp._actions = permuted
     sl, al = list(mdp.state_list), list(mdp.action_list)
     res = {"state_list": sl, "action_list": al,
            "absorbing_vec": [bool(x) for x in mdp.absorbing_state_vec],
@@ -22,7 +42,10 @@ def one(case, pl):
     }
     for name, mk in planners.items():
         try:
-            r = mk().plan_on(mdp)
+            key = (name, case["max_residual"], case["max_iterations"], case["undefined_value"])
+            if key not in _PLANNERS:
+                _PLANNERS[key] = mk()
+            r = _PLANNERS[key].plan_on(mdp)
             # the dict version's tables only span the actions it stored: an action outside a
             # table's action domain is "unavailable everywhere" (-inf) / probability 0
             qal, pal = list(r.action_value.action_list), list(r.policy.action_list)
